@@ -1,5 +1,6 @@
 import Ivg.Lemmas.Codec
 import Ivg.Lemmas.Quantize
+import Ivg.Lemmas.ZeroToOne
 import Ivg.Gen.Tie.DrawOps
 import Ivg.Gen.Tie.Magic
 import Ivg.Obligations
@@ -18,7 +19,7 @@ an error, never read past the end."
 The theorems below are about the executable model (`Ivg.Enc.*`, `Ivg.Dec.*`), which the differential
 suite ties to /repo.  Structural (S) and bit-level (B) clauses are proved in full, and so are the
 float-semantic (F) clauses about reals, coordinates and `quantize`; see the end of the file for the
-clauses (zero-to-one precision, angle normalisation) that are NOT proved here.
+clause (angle normalisation) that is NOT proved here.
 
 Each implication is followed by an `example` that exhibits a concrete instance of its hypotheses
 (non-vacuity).
@@ -408,18 +409,35 @@ theorem quantize_short (f : F32) (h1 : F32.ofInt (-128) ≤ f) (h2 : f < F32.ofI
 theorem quantize_idem (f : F32) :
     Enc.quantize false (Enc.quantize false f) = Enc.quantize false f := Quant.quantize_idem f
 
+/-! ## zero-to-one numbers: the short forms are accurate to one unit in the last place -/
+
+/-- Clause "… and otherwise to within the format's precision (at most 4 units in the last place, sign
+    preserved)" for the SHORT zero-to-one forms, where two float32 roundings (`f*15120`, then
+    `u/15120` or `(u/126)/120`) separate the decoded value from `f`: the decoded float is `==` to `f`
+    (both are zeros) or both are positive with bit patterns at distance at most ONE.  Proved
+    analytically in `Ivg/Lemmas/ZeroToOne.lean` (half-unit error of the product, half-unit error of the
+    correctly rounded quotient — `SpecDiv.lean` — and linear arithmetic per exponent configuration). -/
+theorem z2o_bound (f : F32) (h : (Enc.encodeZeroToOne f).length ≠ 4) :
+    (rtZ2O f).feq f = true ∨
+    (sgn (rtZ2O f) = 0 ∧ sgn f = 0 ∧ (rtZ2O f).nb ≤ f.nb + 1 ∧ f.nb ≤ (rtZ2O f).nb + 1) :=
+  Z2O.z2o_bound f h
+-- 0.3 (0x3e99999a) is written as 4536/15120 in two bytes and read back as 0x3e99999a again
+example : (Enc.encodeZeroToOne ⟨0x3e99999a⟩).length ≠ 4 ∧ rtZ2O ⟨0x3e99999a⟩ = ⟨0x3e99999a⟩ := by decide
+
+/-- Hence for arc angles: a short angle form decodes to within one unit of `angleNorm f`. -/
+theorem angle_bound (f : F32) (h : (Enc.encodeAngle f).length ≠ 4) :
+    (rtAngle f).feq (angleNorm f) = true ∨
+    (sgn (rtAngle f) = 0 ∧ sgn (angleNorm f) = 0 ∧ (rtAngle f).nb ≤ (angleNorm f).nb + 1 ∧
+      (angleNorm f).nb ≤ (rtAngle f).nb + 1) :=
+  Z2O.z2o_bound (angleNorm f) h
+
 /-!
 ## Clauses NOT proved in this file (documented gaps; covered by the exhaustive differential tier)
 
-Full-strength statements that remain open (`val` = the real value of a finite float32,
-`ulps a b` = distance of the bit patterns of two same-sign floats):
-
-* `z2o_bound`: `(Enc.encodeZeroToOne f).length ≠ 4 → sgn (rtZ2O f) = sgn f ∧ ulps (rtZ2O f) f ≤ 4`.
-  Proved instead: `z2o_short` (the guard `float32(u) == f*15120 ∧ u < 15120`) and `z2o_roundtrip`
-  (the decoded value is `float32(u/126)/120` resp. `float32(u)/15120`).  Missing: an error bound for
-  one rounding of `*` and one of `/` (monotonicity of round-to-nearest-even on the soft-float).
-* `angle_mod1`: `¬ f.isNaN ∧ expo f ≠ 255 → val (angleNorm f) = round32 (val f - ⌊val f⌋)`; `angle_roundtrip`
-  is relative to `angleNorm`.
+* `angle_mod1`: that `angleNorm f = float32(g − floor g)`, `g = float64(f)`, is `f − ⌊f⌋` rounded once to
+  binary32 (it is exact for `f ≥ 0` and whenever `f` is a multiple of 2^-24; for tiny negative `f` the
+  float64 subtraction itself rounds, to 1.0).  `angle_roundtrip` / `angle_bound` are relative to
+  `angleNorm`.
 -/
 
 end Ivg.Props.C08
@@ -445,5 +463,5 @@ end Ivg.Props.C08
   Ivg.Props.C08.roundtrip_idempotent, Ivg.Props.C08.nreg_instruction_roundtrip,
   Ivg.Props.C08.arcflags_roundtrip,
   Ivg.Props.C08.quantize_nearest, Ivg.Props.C08.quantize_unchanged, Ivg.Props.C08.quantize_short,
-  Ivg.Props.C08.quantize_idem,
+  Ivg.Props.C08.quantize_idem, Ivg.Props.C08.z2o_bound, Ivg.Props.C08.angle_bound,
   Ivg.Gen.Tie.drawOps_tie, Ivg.Gen.Tie.magic_tie]
